@@ -168,12 +168,23 @@ def make_check(real_envs, complex_envs):
             # "for real data": environments in which the real-mode expression itself takes a non-real value
             # (ln / sqrt / acos / fractional power of a negative number) are outside the statement
             usable = []
+            from ufl.corealg.traversal import unique_pre_traversal
+
+            nodes = [n for n in unique_pre_traversal(res) if hasattr(n, "ufl_shape") and type(n).__name__ not in ("MultiIndex", "Label")]
             for env in real_envs:
+                # every SUBexpression must stay in the reals (abs(ln(g)) is real-valued although ln(g) is not for g < 0)
                 try:
-                    vals = [M.sem(res, M.Ctx(env), r) for r in M.free_index_assignments(res)]
+                    vals = []
+                    for n in nodes:
+                        if n.ufl_free_indices:
+                            continue
+                        v = M.sem(n, M.Ctx(env), {})
+                        import numpy as np
+
+                        vals += list(v.reshape(-1)) if isinstance(v, np.ndarray) else [v]
                 except (Ambiguous, Undefined):
                     continue
-                if all(is_real(const_of(v), mpf("1e-30")) for v in vals):
+                if all(isinstance(v, bool) or is_real(const_of(v), mpf("1e-30")) for v in vals):
                     usable.append(env)
                 else:
                     part.count("not_real_valued_env")
